@@ -40,8 +40,10 @@ async fn f20_stale_candidate_list_publishes_rows_twice() {
     println!("stale swap accepted: {:?}", swap_b.is_ok());
     let _ = node_b.complete_lease(&lease_b.lease_id).await;
 
-    let rows_after: u64 = node_a.list_chunks().await.unwrap().iter().map(|c| c.row_count).sum();
-    let listed: Vec<String> = node_a.list_chunks().await.unwrap().into_iter().map(|c| c.chunk_path).collect();
+    // a fresh client: no per-client catalog cache in the way
+    let reader = S3MetadataClient::new(store.clone(), cfg());
+    let rows_after: u64 = reader.list_chunks().await.unwrap().iter().map(|c| c.row_count).sum();
+    let listed: Vec<String> = reader.list_chunks().await.unwrap().into_iter().map(|c| c.chunk_path).collect();
     println!("catalog now lists {:?}", listed);
     assert_eq!(rows_after, rows_before, "rows reachable through the catalog must be the same set, each once");
 }
